@@ -493,6 +493,32 @@ func engineSmall() {
 			}
 		}
 	}
+	// every subset of the six stages populated
+	for mask := 0; mask < 64; mask++ {
+		eval()
+		n++
+		h := rspec.Hook{Path: "/bin/h", Args: []string{"a"}}
+		hs := &rspec.Hooks{}
+		stages := []*[]rspec.Hook{&hs.Prestart, &hs.CreateRuntime, &hs.CreateContainer, &hs.StartContainer, &hs.Poststart, &hs.Poststop}
+		names := []string{"prestart", "createruntime", "createcontainer", "startcontainer", "poststart", "poststop"}
+		for i, st := range stages {
+			if mask>>uint(i)&1 == 1 {
+				*st = []rspec.Hook{h}
+			}
+		}
+		nh := api.FromOCIHooks(hs)
+		got := [][]*api.Hook{}
+		if nh != nil {
+			got = [][]*api.Hook{nh.Prestart, nh.CreateRuntime, nh.CreateContainer, nh.StartContainer, nh.Poststart, nh.Poststop}
+		}
+		for i := range stages {
+			want := mask>>uint(i)&1 == 1
+			have := nh != nil && len(got[i]) == 1 && got[i][0].Path == "/bin/h"
+			if want != have {
+				fail("hooks-stage-subset|"+names[i], "hooks with stages mask %06b populated: stage %s converted to %d hooks (whole result nil: %v)", mask, names[i], map[bool]int{true: 1, false: 0}[have], nh == nil)
+			}
+		}
+	}
 	if api.FromOCIHooks(nil) != nil {
 		fail("hooks-nil", "FromOCIHooks(nil) is not nil")
 	}
